@@ -40,6 +40,10 @@ def feat_for(tier):
     return f
 
 
+def _is_sched(prog, nid):
+    return nid == -1 or prog["nodes"].get(nid, {}).get("kind") == "dodoer"
+
+
 def run_case(tape, tier):
     res = Result()
     feat = feat_for(tier)
@@ -257,6 +261,20 @@ def check(run, res):
         res.violate("extend-no-recur-next-pass", "doer %d added to scheduler %d by extend did not recur in the scheduler's next pass "
                     "(trace %d..%d)" % (x, sid, p1, p2))
         return
+    # nobody is force-closed out of the blue: a forced close (cease) happens inside a remove() call, inside an extend() call (a
+    # failed enter closes the ones entered before it) or while some scheduler exits - never in the middle of a scheduler's pass
+    depth = 0
+    for k in range(n):
+        e = tr[k]
+        if e[0] in ("remove_call", "extend_call", "exit_begin"):
+            depth += 1
+        elif e[0] in ("remove_return", "extend_return", "extend_raise", "exit") and (e[0] != "exit" or _is_sched(prog, e[1])):
+            depth = max(0, depth - 1)
+        elif e[0] == "cease" and depth == 0:
+            res.comparisons += 1
+            res.violate("closed-out-of-the-blue", "doer %s was force-closed (cease) outside every remove()/extend() call and outside every "
+                        "scheduler exit: its scheduler lost it while it was still running" % (e[1],))
+            return
     # a scheduler that ends because it is done ends when its last doer has completed, including the ones added at runtime:
     # nobody who was not removed is force-closed at the end.  (A DoDoer that completed shows `clean`; a Doist run without a
     # limit that returned completed too.)
